@@ -524,6 +524,40 @@ def b_aggregate_dispatch(S):
     return out
 
 
+def b_subsampling(S):
+    """`group_gathered_subsamples` and `aggregate_chosen`: loops regenerated; a row is a function column -> cell, the aggregator
+    functions are an Option-valued oracle (`none` = raised) and `fallback_aggregation` a parameter"""
+    rows = param_table(S)
+    area_name = next(n for m, n, _, _ in rows if m == "AREA")
+    kf = _kwcall(S[SUBS], "group_gathered_subsamples", "groupby_keyfunc", {"item": "item", "groupby_column": "groupby_column"})
+    out = translate_function(
+        S[SUBS], "group_gathered_subsamples", "group_gathered_subsamples",
+        {"subsamples": "List I"}, "AList String (List I)",
+        {kf: "(keyf item)", "isinstance(key, str)": "true", "{}": "[]"},
+        types={kf: "String", "key": "String", "grouped": "AList String (List I)", "isinstance(key, str)": "Bool"},
+        extra_params=[("{I}", "Type"), ("keyf", "I → String")], default_num="Nat")
+    C = {
+        "params[general.Param.AREA.value.name]": f'(params "{area_name}")',
+        "params[column]": "(params column)",
+        "general.Param": "paramAggregator",
+        "param.value.name": "param.1",
+        "param.value.aggregator": "param.2",
+        "aggregator(values=column_values, weights=area_values)": "(agg aggregator column_values area_values)",
+        "general.fallback_aggregation(values=column_values)": "(fallback column_values)",
+        "dict()": "[]",
+    }
+    T = {"params[general.Param.AREA.value.name]": "Cell", "params[column]": "Cell", "general.Param": "List (String × String)", "param.value.name": "String",
+         "param.value.aggregator": "String", "aggregator": "String", "column_values": "List Cell", "area_values": "List Cell", "aggregated": "R",
+         "aggregator(values=column_values, weights=area_values)": "Option R", "general.fallback_aggregation(values=column_values)": "R",
+         "aggregated_values": "AList String R", "default_aggregator": "String", "column": "String", "chosen": "List (String → Cell)", "params": "String → Cell"}
+    out += "\n" + translate_function(
+        S[SUBS], "aggregate_chosen", "aggregate_chosen",
+        {"chosen": "List (String → Cell)", "columns": "List String", "default_aggregator": "String"}, "AList String R", C, types=T,
+        extra_params=[("{Cell}", "Type"), ("{R}", "Type"), ("agg", "String → List Cell → List Cell → Option R"), ("fallback", "List Cell → R")],
+        slice_from="area_values =", default_num="Nat")
+    return out
+
+
 def _class_attr(cls, name):
     for st in cls.body:
         if isinstance(st, ast.Assign) and len(st.targets) == 1 and isinstance(st.targets[0], ast.Name) and st.targets[0].id == name:
@@ -611,6 +645,25 @@ def b_validator_table(S):
     if not ok:
         raise Untranslatable("empty-area exit does not return a copy carrying the empty-area error in every row")
     out += "/-- the exit returns `self.traces.copy()` with `(EmptyTargetAreaValidator.ERROR,)` in every row (shape-checked) -/\ndef empty_area_exit_writes_error : Bool := true\n"
+    return out
+
+
+def b_snap_insert(S):
+    """`is_endpoint_close_to_boundary` and `snap_trace_to_another` (the second snapping stage for one trace): loops regenerated;
+    distances, incidence and the vertex insertion are parameters"""
+    out = translate_function(
+        S[BAN], "is_endpoint_close_to_boundary", "is_endpoint_close_to_boundary",
+        {"endpoint": "P", "areas": "List A", "snap_threshold": "Rat"}, "Bool",
+        {"endpoint.distance(area.boundary)": "(bdist endpoint area)"}, types={"endpoint.distance(area.boundary)": "Rat"},
+        extra_params=[("{P}", "Type"), ("{A}", "Type"), ("bdist", "P → A → Rat")], default_num="Rat")
+    C = {"ep.distance(another)": "(dist ep another)", "ep.intersects(another)": "(on ep another)",
+         "insert_point_to_linestring(another, endpoint, snap_threshold=snap_threshold)": "(insert another endpoint snap_threshold)"}
+    T = {"ep.distance(another)": "Rat", "ep.intersects(another)": "Bool", "endpoints": "List P",
+         "insert_point_to_linestring(another, endpoint, snap_threshold=snap_threshold)": "L"}
+    out += "\n" + translate_function(
+        S[BAN], "snap_trace_to_another", "snap_trace_to_another",
+        {"trace_endpoints": "List P", "another": "L", "snap_threshold": "Rat"}, "L × Bool", C, types=T,
+        extra_params=[("{P}", "Type"), ("{L}", "Type"), ("dist", "P → L → Rat"), ("on", "P → L → Bool"), ("insert", "L → P → Rat → L")], default_num="Rat")
     return out
 
 
@@ -957,6 +1010,7 @@ ITEMS: List[Item] = [
     Item("NodeIdentity", BAN, ["C05", "C01"], b_node_identity, extra_modules=[GENERAL]),
     Item("BranchIdentities", BAN, ["C05", "C01"], b_branch_identities, deps=["BranchIdentity"], extra_modules=[GENERAL]),
     Item("SnapConstants", BAN, ["C01", "C03", "C06", "C16"], b_snap_constants),
+    Item("SnapInsert", BAN, ["C06"], b_snap_insert),
     Item("BoundaryWeight", GENERAL, ["C08"], b_boundary_weight),
     Item("BranchBoundary", PARAMS, ["C08"], b_branch_boundary, extra_modules=[GENERAL, NETWORK]),
     Item("ParamTable", GENERAL, ["C08", "C20"], b_param_table),
@@ -979,4 +1033,5 @@ ITEMS: List[Item] = [
     Item("Windows", TVALS, ["C10", "C03", "C06"], b_windows, extra_modules=[BAN]),
     Item("RandomRadius", RSAMP, ["C20"], b_random_radius, extra_modules=[GENERAL]),
     Item("AggregateDispatch", SUBS, ["C20"], b_aggregate_dispatch),
+    Item("Subsampling", SUBS, ["C20"], b_subsampling, deps=["ParamTable"], extra_modules=[GENERAL]),
 ]
